@@ -45,6 +45,12 @@ def best_update_rules(ctx, rid, fn, loop, all_flag, cand, inc):
             tests.append((t, pol))
         allmode = ('truthy', all_flag) in facts
         single = ('falsy', all_flag) in facts
+        # an update whose guards contradict each other (v < b after the branch for v <= b was not taken) never executes
+        contra = {'<': ('>', '>=', '=='), '<=': ('>',), '>': ('<', '<=', '=='), '>=': ('<',), '==': ('<', '>', '!=')}
+        dead = any(len(a) == 3 and len(b) == 3 and a[0] == b[0] and a[2] == b[2] and b[1] in contra.get(a[1], ()) for a in facts for b in facts)
+        if dead:
+            ctx.inst(rid, fn, st, True, "unreachable update (its guards contradict each other)", nontrivial=False)
+            continue
         # find the comparison cand ? best[0] in a dominating (true) test
         op = None
         guard_none = False
@@ -111,6 +117,8 @@ def rules(ctx):
     from .C14 import no_module_state
     ctx.rule('R09.8', "no function writes module-level state (memo / registry): results independent of earlier calls", floor=1)
     no_module_state(ctx, 'R09.8')
+    from .C14 import derived_fields as _df
+    _df(ctx, 'R09.8')      # ... nor keeps derived state on a model that some mutator forgets (stale memo)
     ctx.rule('R09.1', "wrappers pass (spin flag, value function) of their own kind and forward all_solutions/valid", floor=8)
     ctx.rule('R09.2', "candidates are product(DOM(flag), repeat=N); N and label map from one source per branch", floor=5)
     ctx.rule('R09.3', "the validity filter dominates the value computation and the best-updates", floor=2)
@@ -293,24 +301,33 @@ def rules(ctx):
     okc = bool(coll) and all(src(c.func.value.args[0]) == cand for c in coll)
     ctx.inst('R09.4', sb, coll[0] if coll else 'all_sols.setdefault(v, []).append(x)', okc,
              "minimisers collected under their value" if okc else "minimisers are not collected under the key of their value")
-    fin = [n for n in strip_docstring(sb.node.body) if isinstance(n, ast.If) and src(n.test) == allp]
     okfin = False
     def at_best(e):
         return isinstance(e, ast.Subscript) and src(e.slice) == INC.value
-    for n in fin:
-        for s_ in n.body:
-            if isinstance(s_, ast.Return) and isinstance(s_.value, ast.Tuple) and len(s_.value.elts) == 2 \
-                    and src(s_.value.elts[0]) == INC.value and at_best(s_.value.elts[1]):
+    gsb = cfg_of(sb.node)
+    inloop = {id(x) for x in ast.walk(loop)}
+    fin = []
+    for s_ in gsb.stmts():
+        if id(s_) in inloop or not isinstance(s_, (ast.Return, ast.Assign)):
+            continue
+        fs = []
+        for t, pol, o in gsb.edge_dominators(s_):
+            fs += compare_atoms(t, pol)
+        if ('truthy', allp) not in fs:
+            continue            # only what happens when all solutions were asked for
+        fin.append(s_)
+        if isinstance(s_, ast.Return) and isinstance(s_.value, ast.Tuple) and len(s_.value.elts) == 2 \
+                and src(s_.value.elts[0]) == INC.value and at_best(s_.value.elts[1]):
+            okfin = True
+        if not isinstance(s_, ast.Assign):
+            continue
+        if INC.form == 'pair' and isinstance(s_.value, ast.Tuple) and len(s_.value.elts) == 2 and is_name(s_.targets[0], INC.name):
+            e0, e1 = s_.value.elts
+            if src(e0) == INC.value and isinstance(e1, ast.Subscript) and src(e1.slice) == INC.value:
                 okfin = True
-            if not isinstance(s_, ast.Assign):
-                continue
-            if INC.form == 'pair' and isinstance(s_.value, ast.Tuple) and len(s_.value.elts) == 2 and is_name(s_.targets[0], INC.name):
-                e0, e1 = s_.value.elts
-                if src(e0) == INC.value and isinstance(e1, ast.Subscript) and src(e1.slice) == INC.value:
-                    okfin = True
-            if INC.form == 'split' and is_name(s_.targets[0], INC.sol) and isinstance(s_.value, ast.Subscript) \
-                    and src(s_.value.slice) == INC.value:
-                okfin = True
+        if INC.form == 'split' and is_name(s_.targets[0], INC.sol) and isinstance(s_.value, ast.Subscript) \
+                and src(s_.value.slice) == INC.value:
+            okfin = True
     ctx.inst('R09.4', sb, fin[0] if fin else 'final selection', okfin,
              "all-solutions result is the collection stored under the final best value" if okfin else
              "the all-solutions result is not read at the final best value")
